@@ -33,7 +33,7 @@ LEVEL_TEXT = ("PROVED in Lean, for all inputs (15 theorems, lean/XalanModel/Prop
               "call-template / choose / for-each / apply-templates. "
               "(1c) core_refines_spec_total / core_refines_spec — NO abstract oracle and NO assumed program: CoreSpec.compile is a total compiler "
               "from the specification's stylesheets to Core programs (with annotation infoOf and layout layoutOf), inFragment a decidable "
-              "test; for EVERY stylesheet passing the test (literal text / value-of / literal result elements without attributes / if / "
+              "test; for EVERY stylesheet passing the test (literal text / value-of / literal result elements with attribute value templates (no xsl:attribute, no use-attribute-sets) / if / "
               "choose / for-each / apply-templates without sort and params / call-template without params / all built-in rules; any "
               "patterns, modes, priorities, import precedences; no keys, strip-space, global variables, namespace-alias) and every document, "
               "with the oracle CoreSpec.oracleOf whose every answer IS Spec.eval / chooseTemplateIdx / toStr: whatever tree the "
@@ -55,7 +55,7 @@ LEVEL_TEXT = ("PROVED in Lean, for all inputs (15 theorems, lean/XalanModel/Prop
               "proved fragment are additionally run exactly as in the conclusion of core_refines_spec_total (Core.run on compile ss with oracleOf) and compared with engine and specification.")
 LEVEL_NOTE = ("Partial. What the proofs do NOT cover: no Lean model of the whole of XSLT/*.cpp exists, so real engine = Core model is a "
               "correspondence (op logs, TraceListener order), not a theorem; core_refines_spec covers the narrow fragment above (no "
-              "variables / parameters / attributes / copy / sort / keys / strip-space / global variables / xsl:number / xsl:apply-imports — these are in "
+              "variables / parameters / xsl:attribute / xsl:element / copy / sort / keys / strip-space / global variables / xsl:number / xsl:apply-imports — these are in "
               "Spec.lean and are compared only); expression values inside Spec.lean use a constant fuel (evalFuel = 1000), so "
               "a deeper XPath evaluation is 'undefined' in the specification (the generator stays far below; the check fails on any "
               "spec-undefined reply). "
